@@ -170,8 +170,9 @@ func KeyName(t *tape.Tape, i int) []byte {
 	case 6:
 		// integer-looking key (the writer may store it in the 8/16/32-bit integer form), around the width boundaries and
 		// negative as well; i keeps the names distinct
-		base := []int{1000, -300, -129, -32768, 127, 128, 32767, 32768, -2147483648, 2147483647 - 100000, -1, 0, -128 - 50000}[t.Choose(13)]
-		return []byte(strconv.Itoa(base + i))
+		// (ranges for i < 100 are pairwise disjoint, so names stay unique within a file)
+		m := [][2]int{{1000, 1}, {-300, -1}, {-129, -1}, {-32768, 1}, {127, -1}, {128, 1}, {32767, -1}, {32768, 1}, {-2147483648, 1}, {2147483647, -1}, {-1, -1}, {50000, 1}}[t.Choose(12)]
+		return []byte(strconv.Itoa(m[0] + m[1]*(i%100)))
 	default:
 		return append([]byte(fmt.Sprintf("k%d:", i)), t.Bytes(t.Choose(30), []byte("abc{} \r\n\x00"))...)
 	}
